@@ -38,6 +38,7 @@ from verif import framework as fw
 from verif import scen  # installs fake ray before resonaate is imported
 
 import resonaate.dynamics.celestial as _celestial  # noqa: E402
+from resonaate.dynamics.integration_events.station_keeping import StationKeeper  # noqa: E402
 from resonaate.agents.target_agent import TargetAgent  # noqa: E402
 from resonaate.data import setDBPath  # noqa: E402
 from resonaate.data.events import Event  # noqa: E402
@@ -710,6 +711,25 @@ def _audit_queue(res, sub_prefix, level, case, agent, offered, t_now, item):
     )
 
 
+class _QuietKeeper(StationKeeper):
+    """A station keeper that never has anything to do (the library's StationKeeper event function over a condition that
+    is never met): with it in the agent's station-keeping list a burn must be delivered exactly as without it."""
+
+    @classmethod
+    def fromInitECI(cls, rso_id, initial_eci, julian_date_start):  # noqa: ARG003
+        return cls(rso_id)
+
+    @classmethod
+    def getConfigString(cls):
+        return "verif quiet keeper"
+
+    def interruptRequired(self, time, state):  # noqa: ARG002
+        return False
+
+    def getStateChange(self, time, state):  # noqa: ARG002
+        raise AssertionError("the quiet keeper never fires")
+
+
 def _step_agent(agent):
     WATCHDOG.reset()
     t0 = agent.time
@@ -750,17 +770,21 @@ def _run_agent(res, item):
     times = [float((j + 1) * dt) for j in range(n_steps)]
     gravity = None
     coast = None
-    for ts, te in pairs:
-        ts, te = float(ts), float(te)
+    for pi, pr in enumerate(pairs):
+        ts, te = float(pr[0]), float(pr[1])
         agent = world.agent(pos, vel)
         if gravity is None:
             gravity = world.gravity(agent)
             coast = orc.integrate(gravity, agent.eci_state, 0.0, times, [])
+        # every other interval: the agent also carries a station keeper (one that never has to act)
+        keeper = bool(pr[2]) if len(pr) > 2 else pi % 2 == 1
+        if keeper:
+            agent._station_keeping = [_QuietKeeper(agent.simulation_id)]  # noqa: SLF001  (the property has no setter)
         y0 = np.array(agent.eci_state, dtype=float)
-        one = ("agent", model, dt, k, kind, orbit, mode, seed, [[ts, te]])
+        one = ("agent", model, dt, k, kind, orbit, mode, seed, [[ts, te, keeper]])
         case = {"model": MODELS[model], "dt": dt, "k": k, "kind": kind, "orbit": orbit, "mode": mode,
                 "t_start": ts, "t_end": te, "start_on_grid": _on_grid(ts, dt), "end_on_grid_nominal": _on_grid(te, dt),
-                "steps_spanned": int(np.ceil(te / dt) - np.floor(ts / dt))}
+                "steps_spanned": int(np.ceil(te / dt) - np.floor(ts / dt)), "quiet_station_keeper": keeper}
         nontriv = (not _on_grid(ts, dt)) or (not _on_grid(te, dt)) or (te - ts) > dt
         lib, offered, eff = [], [], None
         err = None
